@@ -165,6 +165,16 @@ CLAIMED["C07"] = dict(
          "(3 atoms / 2 bonds; 2 conformers x 2 atoms).",
 )
 
+CLAIMED["C08"] = dict(
+    text="Proof: dump_xyz/dumps_xyz output (structured string) fed to read_xyz/yield_from_xyz/loads_xyz gives the same atom count, "
+         "order, elements (incl. the Unknown element) and coordinates to the written precision, frame by frame for ensembles, and the "
+         "atom records are a fixed point; for every member of DistanceUnit (and aliases) the xyz and the mol2 reader return the file's "
+         "numbers times Angstrom-per-unit from the physical table (relative tolerance 1e-5 for the Bohr constant).",
+    ref="DESIGN.md section 3 C08",
+    note="Float text codec assumed (|float(format(x,'12.6f')) - x| <= 5e-7, idempotent); structured-string model as in C07; sizes fixed "
+         "(3 atoms; 2 frames x 2 atoms); the xyz comment line (name) is not restored by the reader and is outside the statement.",
+)
+
 NOT_APPLICABLE = {
 }
 
